@@ -151,25 +151,26 @@ static void do_op(Toks& tk) {
   else throw std::runtime_error("case: unknown op " + op);
 }
 
+#define ANSB(e) do { bool b_ = (e); std::cout << "ans b " << b_ << "\n"; } while (0)
 static void do_qry(Toks& tk) {
   int id = tk.nextl(); const Polyhedron& x = *get(id); std::string q = tk.next(); unsigned dim = x.space_dimension();
-  if (q == "is_empty") std::cout << "ans b " << x.is_empty() << "\n";
-  else if (q == "is_universe") std::cout << "ans b " << x.is_universe() << "\n";
-  else if (q == "is_bounded") std::cout << "ans b " << x.is_bounded() << "\n";
-  else if (q == "is_topologically_closed") std::cout << "ans b " << x.is_topologically_closed() << "\n";
-  else if (q == "is_discrete") std::cout << "ans b " << x.is_discrete() << "\n";
-  else if (q == "contains_integer_point") std::cout << "ans b " << x.contains_integer_point() << "\n";
-  else if (q == "contains") std::cout << "ans b " << x.contains(*get(tk.nextl())) << "\n";
-  else if (q == "strictly_contains") std::cout << "ans b " << x.strictly_contains(*get(tk.nextl())) << "\n";
-  else if (q == "is_disjoint_from") std::cout << "ans b " << x.is_disjoint_from(*get(tk.nextl())) << "\n";
-  else if (q == "equals") std::cout << "ans b " << (x == *get(tk.nextl())) << "\n";
+  if (q == "is_empty") ANSB(x.is_empty());
+  else if (q == "is_universe") ANSB(x.is_universe());
+  else if (q == "is_bounded") ANSB(x.is_bounded());
+  else if (q == "is_topologically_closed") ANSB(x.is_topologically_closed());
+  else if (q == "is_discrete") ANSB(x.is_discrete());
+  else if (q == "contains_integer_point") ANSB(x.contains_integer_point());
+  else if (q == "contains") ANSB(x.contains(*get(tk.nextl())));
+  else if (q == "strictly_contains") ANSB(x.strictly_contains(*get(tk.nextl())));
+  else if (q == "is_disjoint_from") ANSB(x.is_disjoint_from(*get(tk.nextl())));
+  else if (q == "equals") ANSB(x == *get(tk.nextl()));
   else if (q == "affine_dimension") std::cout << "ans n " << x.affine_dimension() << "\n";
-  else if (q == "constrains") std::cout << "ans b " << x.constrains(Variable(tk.nextl())) << "\n";
+  else if (q == "constrains") ANSB(x.constrains(Variable(tk.nextl())));
   else if (q == "relation_with_con") print_rel(x.relation_with(read_con(tk, dim)));
   else if (q == "relation_with_cg") print_rel(x.relation_with(read_cg(tk, dim)));
   else if (q == "relation_with_gen") { Poly_Gen_Relation r = x.relation_with(read_gen(tk, dim)); std::cout << "ans b " << (r.implies(Poly_Gen_Relation::subsumes()) ? 1 : 0) << "\n"; }
   else if (q == "bounds_from_above" || q == "bounds_from_below") { mpz_class b; Linear_Expression e = read_expr_n(tk, b);
-    std::cout << "ans b " << (q == "bounds_from_above" ? x.bounds_from_above(e) : x.bounds_from_below(e)) << "\n"; }
+    ANSB(q == "bounds_from_above" ? x.bounds_from_above(e) : x.bounds_from_below(e)); }
   else if (q == "maximize" || q == "minimize") {
     mpz_class b; Linear_Expression e = read_expr_n(tk, b); Coefficient n, d; bool m; Generator g = point();
     bool r = (q == "maximize") ? x.maximize(e, n, d, m, g) : x.minimize(e, n, d, m, g);
